@@ -200,3 +200,179 @@ Proof.
   rewrite R. cbn [rbind]. replace (S (n - S k)) with (n - k)%nat by lia.
   rewrite IH by (try assumption; lia). reflexivity.
 Qed.
+
+(* ---------- ASCII vertex lines ---------- *)
+Definition tk (t : sty) (w : N) : tok := match atok t w with Ok x => x | Err _ => TBad end.
+Definition gtoks (g : rgroup) (i : nat) : list tok := map (tk (rg_ty g)) (rowi g i).
+(* an 8-bit scalar read through Vector1PropertyReader comes back raw in ASCII (known finding): excluded *)
+Definition ascii_ok (g : rgroup) : bool := negb (Nat.eqb (List.length (rg_names g)) 1 && sty_eqb (rg_ty g) UChar).
+
+Lemma ok_inj {A} (a b : A) : Ok a = Ok b -> a = b.
+Proof. intros H. injection H. auto. Qed.
+
+Lemma q255_le w b : q255 w = Ok b -> b <= 255.
+Proof.
+  unfold q255. cbv zeta.
+  destruct (w mod 2 ^ 31 =? 0); [intros E; apply ok_inj in E; subst b; lia|].
+  destruct (negb (w / 2 ^ 31 =? 0)); [discriminate|].
+  destruct ((w / 2 ^ 23) mod 256 =? 0); [intros E; apply ok_inj in E; subst b; lia|].
+  destruct (_ || _); [discriminate|].
+  intros E. apply ok_inj in E. subst b. apply N.le_min_l.
+Qed.
+
+Lemma small_nat_cvI_all : forallb (fun b => match f64_small_nat (cvI (Z.of_N b)) with Some b' => b' =? b | None => false end)
+                                  (map N.of_nat (seq 0 256)) = true.
+Proof. vm_compute. reflexivity. Qed.
+Lemma small_nat_cvI b : b <= 255 -> f64_small_nat (cvI (Z.of_N b)) = Some b.
+Proof.
+  intros H. pose proof small_nat_cvI_all as A. rewrite forallb_forall in A.
+  specialize (A b). destruct (f64_small_nat (cvI (Z.of_N b))) as [b'|].
+  - f_equal. apply N.eqb_eq, A. replace b with (N.of_nat (N.to_nat b)) by lia. apply in_map, in_seq. lia.
+  - discriminate A. replace b with (N.of_nat (N.to_nat b)) by lia. apply in_map, in_seq. lia.
+Qed.
+
+Lemma atok_tk t w : ty_supported t = true -> good t w -> atok t w = Ok (tk t w).
+Proof.
+  intros Ht (s & E & _). unfold tk. destruct t; try discriminate; cbn [atok bword] in *; try reflexivity.
+  rewrite E. reflexivity.
+Qed.
+
+(* the float64 the ASCII reader parses out of the token, and what it stores *)
+Definition tk_f64 (t : sty) (w : N) : N := match t with UChar => cvI (Z.of_N (sw t w)) | _ => cvF w end.
+Lemma tok_f64_tk t w : ty_supported t = true -> good t w -> tok_f64 (tk t w) = Some (tk_f64 t w).
+Proof.
+  intros Ht (s & E & F). unfold tk, tk_f64, sw. destruct t; try discriminate; cbn [atok bword] in *.
+  - rewrite E. reflexivity.
+  - unfold ftok. destruct (int_of_f32 w); reflexivity.
+  - unfold ftok. destruct (int_of_f32 w); reflexivity.
+Qed.
+
+Lemma read_members_ascii t ws : forall (P Sx : list tok),
+  Forall (fun w => good t w /\ exists v, val t w = Ok v) ws -> ty_supported t = true ->
+  mapR (fun off => dor x <- of_opt ECrash (nth_error (P ++ map (tk t) ws ++ Sx) off); of_opt EDeclared (tok_f64 x))
+       (offs_from false (List.length P) t (List.length ws)) = Ok (map (tk_f64 t) ws).
+Proof.
+  induction ws as [|w ws IH]; intros P Sx Hg Ht; [reflexivity|].
+  inversion Hg as [|? ? [G V] Hg']; subst.
+  specialize (IH (P ++ [tk t w]) Sx Hg' Ht). rewrite app_length in IH. cbn [List.length] in IH.
+  rewrite <- app_assoc in IH. cbn [app] in IH.
+  cbn [List.length offs_from mapR map app]. rewrite nth_error_at. cbn [of_opt rbind].
+  rewrite tok_f64_tk by assumption. cbn [of_opt rbind]. unfold advance.
+  replace (S (List.length P)) with (List.length P + 1)%nat by lia. rewrite IH. reflexivity.
+Qed.
+
+Lemma finish_ascii t ws : ty_supported t = true -> Forall (fun w => good t w /\ exists v, val t w = Ok v) ws ->
+  (if sty_eqb t UChar then mapR div255 (map (tk_f64 t) ws) else Ok (map (tk_f64 t) ws)) = Ok (map (vl t) ws).
+Proof.
+  intros Ht Hg. destruct t; try discriminate; cbn [sty_eqb].
+  - induction ws as [|w ws IH]; [reflexivity|]. inversion Hg as [|? ? [G (v & V)] Hg']; subst.
+    destruct G as (s & E & _). cbn [bword] in E. cbn [val] in V. rewrite E in V. cbn [rbind] in V.
+    assert (Es : sw UChar w = s) by (unfold sw; cbn [bword]; rewrite E; reflexivity).
+    assert (Ev : vl UChar w = v) by (unfold vl; cbn [val]; rewrite E; cbn [rbind]; rewrite V; reflexivity).
+    cbn [map mapR]. unfold tk_f64 at 1. rewrite Es, Ev. unfold div255 at 1.
+    rewrite small_nat_cvI by (apply (q255_le w); exact E). rewrite V. cbn [rbind].
+    rewrite IH by assumption. reflexivity.
+  - reflexivity.
+  - reflexivity.
+Qed.
+
+Lemma read_row_ascii n i : forall gs (P S : list tok), Forall (group_good n) gs -> forallb ascii_ok gs = true -> (i < n)%nat ->
+  mapR (fun b => read_ascii_row b (P ++ flat_map (fun g => gtoks g i) gs ++ S)) (layout false gs (List.length P))
+  = Ok (vrow gs i).
+Proof.
+  induction gs as [|g gs IH]; intros P S Hg Ha Hi; [reflexivity|].
+  inversion Hg as [|? ? G Hg']; subst. destruct (rowi_good n g i G Hi) as [_ (Hl & Hr)]. destruct G as (Ht & _ & _).
+  cbn [forallb] in Ha. apply andb_prop in Ha. destruct Ha as [Ha1 Ha].
+  specialize (IH (P ++ gtoks g i) S Hg' Ha Hi).
+  assert (El : List.length (P ++ gtoks g i) = (List.length P + List.length (rowi g i))%nat)
+    by (rewrite app_length; unfold gtoks; rewrite map_length; reflexivity).
+  assert (Eg : gtoks g i = map (tk (rg_ty g)) (rowi g i)) by reflexivity.
+  rewrite El in IH. rewrite <- app_assoc in IH. rewrite Eg in IH.
+  unfold vrow. cbn [layout mapR flat_map map]. rewrite <- app_assoc. rewrite <- Hl. rewrite Eg.
+  unfold read_ascii_row at 1. cbn [b_ty b_offs b_v1].
+  rewrite (read_members_ascii (rg_ty g) (rowi g i) P) by assumption. cbn [rbind].
+  assert (Ef : (if negb (Nat.eqb (List.length (rowi g i)) 1) && sty_eqb (rg_ty g) UChar
+                then mapR div255 (map (tk_f64 (rg_ty g)) (rowi g i)) else Ok (map (tk_f64 (rg_ty g)) (rowi g i)))
+               = Ok (map (vl (rg_ty g)) (rowi g i))).
+  { rewrite <- (finish_ascii (rg_ty g) (rowi g i)) by assumption. unfold ascii_ok in Ha1. rewrite <- Hl in Ha1.
+    destruct (Nat.eqb (List.length (rowi g i)) 1), (sty_eqb (rg_ty g) UChar); try reflexivity; discriminate. }
+  rewrite Ef. cbn [rbind]. unfold vrow in IH. rewrite IH. reflexivity.
+Qed.
+
+Lemma vertex_toks_ok n gs i : Forall (group_good n) gs -> (i < n)%nat ->
+  vertex_toks gs i = Ok (flat_map (fun g => gtoks g i) gs).
+Proof.
+  intros Hg Hi. unfold vertex_toks.
+  rewrite (mapR_ok _ (fun g => gtoks g i)).
+  - cbn [rbind]. rewrite <- flat_map_concat_map. reflexivity.
+  - intros g Hin. rewrite Forall_forall in Hg. destruct (rowi_good n g i (Hg g Hin) Hi) as [E (Hl & Hr)].
+    rewrite E. cbn [rbind]. unfold gtoks. apply mapR_ok. intros w Hw.
+    rewrite Forall_forall in Hr. destruct (Hr w Hw) as [G _]. apply atok_tk; [apply (Hg g Hin)|exact G].
+Qed.
+
+Lemma line_length n gs i : Forall (group_good n) gs -> (i < n)%nat ->
+  List.length (flat_map (fun g => gtoks g i) gs) = List.length (vertex_props gs).
+Proof.
+  intros Hg Hi. induction gs as [|g gs IH]; [reflexivity|]. inversion Hg as [|? ? G Hg']; subst.
+  unfold vertex_props in *. cbn [flat_map]. rewrite !app_length, IH by assumption.
+  destruct (rowi_good n g i G Hi) as [_ (Hl & _)]. unfold gtoks, group_props. rewrite !map_length, Hl. reflexivity.
+Qed.
+
+Theorem read_vertices_ascii_written n gs : forall k (rest : list (list tok)),
+  Forall (group_good n) gs -> forallb ascii_ok gs = true -> vertex_props gs <> [] -> (k <= n)%nat ->
+  read_vertices_ascii (layout false gs 0) (List.length (vertex_props gs))
+    (map (fun i => flat_map (fun g => gtoks g i) gs) (seq (n - k) k) ++ rest) k
+  = Ok (map (vrow gs) (seq (n - k) k), rest).
+Proof.
+  induction k as [|k IH]; intros rest Hg Ha Hne Hk.
+  - cbn [seq map app read_vertices_ascii]. destruct rest; reflexivity.
+  - cbn [seq map app read_vertices_ascii].
+    pose proof (line_length n gs (n - S k) Hg ltac:(lia)) as Ll.
+    destruct (flat_map (fun g => gtoks g (n - S k)) gs) as [|t0 l0] eqn:El.
+    { exfalso. destruct (vertex_props gs); [congruence|discriminate]. }
+    rewrite Ll. rewrite Nat.ltb_irrefl. rewrite <- El.
+    pose proof (read_row_ascii n (n - S k) gs [] [] Hg Ha ltac:(lia)) as R. cbn [app List.length] in R. rewrite app_nil_r in R.
+    rewrite R. cbn [rbind]. replace (S (n - S k)) with (n - k)%nat by lia.
+    rewrite IH by (try assumption; lia). reflexivity.
+Qed.
+
+(* ================= face element ================= *)
+Lemma tris_spec : forall n (l : list nat), (List.length l <= n)%nat -> (List.length l mod 3 = 0)%nat ->
+  flat_map (fun '(a, b, c) => [a; b; c]) (tris l) = l /\ List.length (tris l) = (List.length l / 3)%nat.
+Proof.
+  induction n as [|n IH]; intros l Hl Hm.
+  - destruct l; [split; reflexivity|cbn in Hl; lia].
+  - destruct l as [|a [|b [|c r]]]; try (split; reflexivity); try (cbn in Hm; discriminate).
+    cbn [List.length] in Hl, Hm.
+    destruct (IH r) as [E1 E2]; [lia|lia|]. cbn [tris flat_map app List.length]. rewrite E1, E2. split; [reflexivity|lia].
+Qed.
+
+Definition shape (st : fstate) : Prop := List.length (fs_ibuf st) = 4%nat /\ List.length (fs_tbuf st) = 8%nat.
+Definition idx_ok (i : nat) : Prop := N.of_nat i < 2147483648.
+Definition tri_ok (t : nat * nat * nat) : Prop := let '(a, b, c) := t in idx_ok a /\ idx_ok b /\ idx_ok c.
+
+Lemma signed32_idx i : idx_ok i -> signed32 (N.of_nat i) = Z.of_nat i.
+Proof. unfold idx_ok, signed32. intros H. replace (N.of_nat i <? 2 ^ 31) with true by (symmetry; apply N.ltb_lt; exact H). lia. Qed.
+Lemma idx_fits i : idx_ok i -> word_fits Int (N.of_nat i).
+Proof. unfold idx_ok, word_fits. cbn. lia. Qed.
+
+Lemma chunks4_3 (a b c : list N) : List.length a = 4%nat -> List.length b = 4%nat -> List.length c = 4%nat ->
+  chunks 4 (a ++ b ++ c) = [a; b; c].
+Proof.
+  intros Ha Hb Hc.
+  destruct a as [|a0 [|a1 [|a2 [|a3 [|]]]]]; try discriminate.
+  destruct b as [|b0 [|b1 [|b2 [|b3 [|]]]]]; try discriminate.
+  destruct c as [|c0 [|c1 [|c2 [|c3 [|]]]]]; try discriminate. reflexivity.
+Qed.
+Lemma chunks4_6 (a b c d f g : list N) : List.length a = 4%nat -> List.length b = 4%nat -> List.length c = 4%nat ->
+  List.length d = 4%nat -> List.length f = 4%nat -> List.length g = 4%nat ->
+  chunks 4 (a ++ b ++ c ++ d ++ f ++ g) = [a; b; c; d; f; g].
+Proof.
+  intros Ha Hb Hc Hd Hf Hg.
+  destruct a as [|a0 [|a1 [|a2 [|a3 [|]]]]]; try discriminate.
+  destruct b as [|b0 [|b1 [|b2 [|b3 [|]]]]]; try discriminate.
+  destruct c as [|c0 [|c1 [|c2 [|c3 [|]]]]]; try discriminate.
+  destruct d as [|d0 [|d1 [|d2 [|d3 [|]]]]]; try discriminate.
+  destruct f as [|f0 [|f1 [|f2 [|f3 [|]]]]]; try discriminate.
+  destruct g as [|g0 [|g1 [|g2 [|g3 [|]]]]]; try discriminate. reflexivity.
+Qed.
